@@ -218,6 +218,7 @@ func runC02(c *Ctx) {
 		c.Check("R2.1", "class names accepted by the combinators were found", newFn.Pos(), n >= 60, fmt.Sprintf("%d names", n))
 	}
 
+	checkClassPresence(c, "R2.1")
 	checkEpsilonCollision(c, classes)
 	np := c.Pkg("internal/regex/parser/nfa")
 	if fd := FuncDecl(np, "", "quantifyNFA"); fd != nil {
@@ -1096,4 +1097,136 @@ func checkPipeline(c *Ctx) {
 	_ = nfaVar
 	c.Check("R2.4", "the automaton is the parsed NFA determinised and post-processed by language-preserving steps only", fd.Pos(), chainOK && hasToDFA,
 		fmt.Sprintf("method chain on the parsed NFA: %v", chain))
+}
+
+// checkClassPresence: a class or category name the grammar accepts is turned down by a mapper only when the class table has no
+// such key. Several documented categories have no member in the supported alphabet (their table entry is empty): a rejection
+// that looks at the content of the entry (its length, the runes it yields) turns those documented constructs into errors.
+func checkClassPresence(c *Ctx, rule string) {
+	pp := c.Pkg("internal/regex/parser")
+	if pp == nil {
+		return
+	}
+	sp := c.SSAPk[pp.PkgPath]
+	if sp == nil {
+		return
+	}
+	table, _ := sp.Members["RuneClasses"].(*ssa.Global)
+	if table == nil {
+		c.Lost(rule, "the class table parser.RuneClasses")
+		return
+	}
+	isTableLoad := func(v ssa.Value) bool {
+		u, ok := v.(*ssa.UnOp)
+		return ok && u.Op == token.MUL && u.X == ssa.Value(table)
+	}
+	readsTable := func(f *ssa.Function) bool {
+		for _, b := range f.Blocks {
+			for _, in := range b.Instrs {
+				if lk, ok := in.(*ssa.Lookup); ok && isTableLoad(lk.X) {
+					return true
+				}
+			}
+		}
+		return false
+	}
+	isPresence := func(v ssa.Value) bool {
+		ex, ok := v.(*ssa.Extract)
+		if !ok || ex.Index != 1 {
+			return false
+		}
+		lk, ok := ex.Tuple.(*ssa.Lookup)
+		return ok && lk.CommaOk && isTableLoad(lk.X)
+	}
+	n := 0
+	for _, pkgPath := range []string{"internal/regex/parser", "internal/regex/parser/nfa", "internal/regex/parser/ast"} {
+		p := c.Pkg(pkgPath)
+		if p == nil {
+			continue
+		}
+		spk := c.SSAPk[p.PkgPath]
+		if spk == nil {
+			continue
+		}
+		for _, f := range allFuncsOfPkg(spk) {
+			if len(f.Blocks) == 0 {
+				continue
+			}
+			// (a) a helper that looks a class up and reports whether it exists
+			if readsTable(f) && f.Signature.Results().Len() >= 2 {
+				res := f.Signature.Results()
+				for k := 0; k < res.Len(); k++ {
+					bt, ok := res.At(k).Type().Underlying().(*types.Basic)
+					if !ok || bt.Kind() != types.Bool {
+						continue
+					}
+					if _, isMapper := f.Signature.Results().At(0).Type().(*types.Named); isMapper && f.Signature.Recv() != nil {
+						continue // a mapper itself: its flag is (b)
+					}
+					for _, b := range f.Blocks {
+						ret, ok := b.Instrs[len(b.Instrs)-1].(*ssa.Return)
+						if !ok {
+							continue
+						}
+						v := retOperand(ret, k)
+						n++
+						key := shortFn(f) + ": a class is reported missing only when the table has no such key"
+						switch {
+						case isPresence(v):
+							c.Pass(rule, key, ret.Pos(), "the flag is the comma-ok of the table lookup")
+						default:
+							if k, isConst := v.(*ssa.Const); isConst && k.Value != nil {
+								c.Pass(rule, key, ret.Pos(), "constant flag")
+								continue
+							}
+							c.Fail(rule, key, ret.Pos(), "the flag returned with the class is computed from the content of the table entry, not from the presence of the key: a documented category whose entry is empty (no member in the supported alphabet) is reported as undefined and the pattern is rejected",
+								"\\p{Lt}, [0-9\\p{So}], \\P{Mn}")
+						}
+					}
+				}
+			}
+			// (b) a rejection in a mapper that depends on how many runes a class has
+			for _, b := range f.Blocks {
+				ifi, ok := b.Instrs[len(b.Instrs)-1].(*ssa.If)
+				if !ok {
+					continue
+				}
+				bo, ok := ifi.Cond.(*ssa.BinOp)
+				if !ok || !isConstInt(bo.Y, 0) {
+					continue
+				}
+				lc, ok := bo.X.(*ssa.Call)
+				if !ok {
+					continue
+				}
+				if bi, ok := lc.Call.Value.(*ssa.Builtin); !ok || bi.Name() != "len" {
+					continue
+				}
+				fromTable := false
+				for _, r := range rootsOf(f, lc.Call.Args[0], func(v ssa.Value) bool { _, ok := v.(*ssa.Call); return ok }) {
+					if call, ok := r.(*ssa.Call); ok && methodNameOf(call) == "Runes" {
+						for _, r2 := range rootsOf(f, recvOf(call), func(v ssa.Value) bool { _, ok := v.(*ssa.Lookup); return ok }) {
+							if lk, ok := r2.(*ssa.Lookup); ok && isTableLoad(lk.X) {
+								fromTable = true
+							}
+						}
+					}
+				}
+				if !fromTable {
+					continue
+				}
+				// does one of the branches return a constant false flag?
+				for _, s := range b.Succs {
+					if ret, ok := s.Instrs[len(s.Instrs)-1].(*ssa.Return); ok && len(ret.Results) == 2 {
+						if k, ok := ret.Results[1].(*ssa.Const); ok && k.Value != nil && k.Value.String() == "false" {
+							n++
+							c.Fail(rule, shortFn(f)+": a class is turned down only when the table has no such key", ifi.Pos(),
+								"the mapper fails when the class has no runes: a documented category whose table entry is empty is rejected", "\\p{Lt}")
+						}
+					}
+				}
+			}
+		}
+	}
+	c.Extra("class_presence_sites", n)
 }
